@@ -1393,6 +1393,17 @@ class Interp:
         deref_written = set()
         deref_assigned = set()     # written by an assignment in the loop itself (not merely lent to a callee)
         assigned = set()
+        deref_fields = {}          # local -> first-level fields of *local that are written / lent (None: the whole object)
+
+        def note_field(pl):
+            ps = pl['p']
+            if len(ps) >= 2 and ps[0][0] == 'deref' and ps[1][0] == 'field':
+                cur_ = deref_fields.get(pl['l'], set())
+                if cur_ is not None:
+                    cur_.add(ps[1][1])
+                    deref_fields[pl['l']] = cur_
+            else:
+                deref_fields[pl['l']] = None
         for b in body:
             blk = fn.blocks[b]
             for s in blk['stmts']:
@@ -1401,6 +1412,7 @@ class Interp:
                     if any(e[0] == 'deref' for e in pl['p']):
                         deref_written.add(pl['l'])
                         deref_assigned.add(pl['l'])
+                        note_field(pl)
                     else:
                         mod.add(pl['l'])
                         if not pl['p']:
@@ -1410,6 +1422,7 @@ class Interp:
                         tgt = rv[2]
                         if any(e[0] == 'deref' for e in tgt['p']):
                             deref_written.add(tgt['l'])
+                            note_field(tgt)
                         else:
                             mod.add(tgt['l'])
             t = blk['term']
@@ -1430,6 +1443,7 @@ class Interp:
                     if through_deref:
                         deref_written.add(root)
                         deref_assigned.add(root)
+                        deref_fields[root] = None
                     else:
                         mod.add(root)
         # a pointer temporary that is itself (re)assigned inside the loop and written through, e.g. the raw pointer copied
@@ -1459,10 +1473,13 @@ class Interp:
                         if root not in deref_written:
                             deref_written.add(root)
                             changed = True
+                        if deref_fields.get(root, 0) is not None:
+                            deref_fields[root] = None      # written through a pointer copy: no field information
+                            changed = True
                     elif root not in mod:
                         mod.add(root)
                         changed = True
-        return (sorted(mod), sorted(deref_written), assigned, deref_assigned)
+        return (sorted(mod), sorted(deref_written), assigned, deref_assigned, deref_fields)
 
     def closure_mut_captures(self, fn, op, depth=0):
         """locals (root, reached through a dereference?) that the closure held in operand `op` captured by mutable
@@ -1601,6 +1618,13 @@ class Interp:
                     continue
                 self._havocked_derefs.append(l)
                 name = fr.fn.locals[l]['name'] or ('_%d' % l)
+                only = hav[4].get(l) if len(hav) > 4 else None
+                if only is not None and isinstance(tgt, Adt) and not tgt.is_enum and all(isinstance(i_, int) and i_ < len(tgt.xs) for i_ in only):
+                    # only some fields of the aggregate behind the reference are written in the loop: the others keep their values
+                    newv = Adt(tgt.path, tgt.variant, tgt.vidx, [hv(x, '*%s.%d' % (name, i_)) if i_ in only else x for i_, x in enumerate(tgt.xs)], tgt.is_enum)
+                    self.store(st, v.cell, v.path, newv)
+                    self._note_vec_head(st, tgt, newv, ('deref', l))
+                    continue
                 newv = hv(tgt, '*' + name)
                 self.store(st, v.cell, v.path, newv)
                 self._note_vec_head(st, tgt, newv, ('deref', l))
@@ -1668,7 +1692,14 @@ class Interp:
         for l in derefs:
             v = fr.cells[l].v
             if isinstance(v, Ref) and l in self._havocked_deref_set:
-                cv(self.load(st, v.cell, v.path))
+                tv = self.load(st, v.cell, v.path)
+                only = hav[4].get(l) if len(hav) > 4 else None
+                if only is not None and isinstance(tv, Adt) and not tv.is_enum and all(isinstance(i_, int) and i_ < len(tv.xs) for i_ in only):
+                    for i_, x in enumerate(tv.xs):      # same fields, same order as in havoc
+                        if i_ in only:
+                            cv(x)
+                else:
+                    cv(tv)
         nghost = 0
         gcur = {}
         if self.ghost_vars:
